@@ -43,6 +43,7 @@ CONSTANTS MaxMsgs,      \* script length 1..4
           Modifiers,    \* subset of BOOLEAN
           Styles,       \* subset of StyleNames: checker x chunking of the Stream runs
           Contents,     \* subset of BOOLEAN: do tool-calling assistant messages carry text content?
+          Wide,         \* subset of 5..7: widths of "wide" assistant messages (that many tool calls, tools cycling through the pool)
           Eager, Bug
 
 Pool == <<"ta", "tb", "tc">>
@@ -53,15 +54,16 @@ ChunkingOf(sty) == CASE sty \in {"d-whole", "w-whole"} -> "whole" [] sty \in {"d
                      [] sty = "d-splitargs" -> "splitargs" [] sty \in {"d-percall", "w-percall"} -> "percall"
                      [] sty \in {"d-contentfirst", "w-contentfirst"} -> "contentfirst"
 Orig == <<[role |-> "user", content |-> "q", calls |-> <<>>, tcid |-> ""]>>
-CallId(j, i) == <<<<"c11", "c12">>, <<"c21", "c22">>, <<"c31", "c32">>, <<"c41", "c42">>>>[j][i]
-CallArg(j, i) == <<<<"x11", "x12">>, <<"x21", "x22">>, <<"x31", "x32">>, <<"x41", "x42">>>>[j][i]
+CallId(j, i) == "c" \o ToString(j) \o ToString(i)
+CallArg(j, i) == "x" \o ToString(j) \o ToString(i)
+\* the Stream run of a case gets its own input (both runs use ONE agent)
+OrigOf(mode) == IF mode = "generate" THEN Orig ELSE <<[role |-> "user", content |-> "q~s", calls |-> <<>>, tcid |-> ""]>>
 Thought(j) == <<"th1", "th2", "th3", "th4">>[j]
 
 VARIABLES pc, sc, cur, run, st, inp, rdid, step, k, chunks, pend, outs, S
 vars == <<pc, sc, cur, run, st, inp, rdid, step, k, chunks, pend, outs, S>>
 
 NM == Len(sc.script)
-UsedTools == {sc.script[j].calls[i].name : j \in 1..NM, i \in 1..2} \cap Range(Pool)
 UsedIn(script) == UNION {{script[j].calls[i].name : i \in 1..Len(script[j].calls)} : j \in 1..Len(script)}
 ToolSeq(n) == [i \in 1..n |-> Pool[i]]
 
@@ -84,6 +86,12 @@ MkCalls(j, l) == [i \in 1..Len(l) |-> [id |-> CallId(j, i), name |-> Pool[l[i]],
 AddToolMsg(l) ==
   /\ pc = "script" /\ ~Closed(sc.script) /\ NM < MaxMsgs
   /\ sc' = [sc EXCEPT !.script = Append(@, [content |-> (IF sc.content THEN Thought(NM + 1) ELSE ""), calls |-> MkCalls(NM + 1, l)])]
+  /\ UNCHANGED <<pc, cur, run, st, inp, rdid, step, k, chunks, pend, outs, S>>
+AddWideMsg(w) ==
+  /\ pc = "script" /\ ~Closed(sc.script) /\ NM < MaxMsgs /\ w \in Wide
+  /\ \A j \in 1..NM : Len(sc.script[j].calls) < 5                      \* at most one wide message per script
+  /\ sc' = [sc EXCEPT !.script = Append(@, [content |-> (IF sc.content THEN Thought(NM + 1) ELSE ""),
+                                             calls |-> MkCalls(NM + 1, [i \in 1..w |-> ((i - 1) % MaxTools) + 1])])]
   /\ UNCHANGED <<pc, cur, run, st, inp, rdid, step, k, chunks, pend, outs, S>>
 AddFinalMsg ==
   /\ pc = "script" /\ ~Closed(sc.script) /\ NM < MaxMsgs
@@ -115,8 +123,8 @@ Finish2(S0, e) == Apply(Apply(S0, e), EndRunEv)
 
 StartRun == /\ pc = "startrun" /\ run < 2
             /\ run' = run + 1
-            /\ S' = Apply(S, [ev |-> "run", mode |-> (IF run = 0 THEN "generate" ELSE "stream")])
-            /\ st' = <<>> /\ inp' = Orig /\ rdid' = "" /\ step' = 0 /\ k' = 0 /\ cur' = <<>> /\ chunks' = <<>> /\ pend' = {} /\ outs' = <<>>
+            /\ S' = Apply(S, [ev |-> "run", mode |-> (IF run = 0 THEN "generate" ELSE "stream"), msgs |-> OrigOf(IF run = 0 THEN "generate" ELSE "stream")])
+            /\ st' = <<>> /\ inp' = OrigOf(IF run = 0 THEN "generate" ELSE "stream") /\ rdid' = "" /\ step' = 0 /\ k' = 0 /\ cur' = <<>> /\ chunks' = <<>> /\ pend' = {} /\ outs' = <<>>
             /\ pc' = "chat" /\ UNCHANGED sc
 AllDone == /\ pc = "startrun" /\ run = 2
            /\ S' = Apply(S, [ev |-> "end"]) /\ pc' = "done"
@@ -199,6 +207,7 @@ Done == pc = "done" /\ ~Eager /\ UNCHANGED vars
 
 Next == \/ \E l \in CallLists(sc.script) : AddToolMsg(l)
         \/ AddFinalMsg
+        \/ \E w \in Wide : AddWideMsg(w)
         \/ \E rdset \in RdSets, ms \in MaxSteps, md \in Modifiers, sty \in Styles : Configure(rdset, ms, md, sty)
         \/ StartRun \/ AllDone \/ Chat \/ Branch \/ ToolsPre \/ (\E i \in pend : ToolRun(i)) \/ ToolsDone \/ Direct \/ Done
 Spec == Init /\ [][Next]_vars /\ WF_vars(Next)
